@@ -174,4 +174,95 @@ theorem pinned_read_event_loses :
 theorem pinned_partial_write_duplicates :
     ([PAct.flush [1, 2, 3], .round 2, .round 10, .flush [4], .round 10].foldl pstep pinit).written = [1, 2, 3, 1, 2, 3, 4] := by decide
 
+
+/-! ### write interest: bytes waiting in the transport keep the socket registered for write events -/
+
+/-- bytes in the hand-over buffer or in the send buffer ⇒ `EVENT_WRITE` is registered -/
+def WI (sa : St × Bool) : Prop := (sa.1.pending ≠ [] ∨ sa.1.sendbuf ≠ []) → sa.2 = true
+
+theorem flat_eq_nil_of_batch_nil (b : List OMsg) (h : b = []) : flat b = [] := by subst h; rfl
+
+theorem step2_wi (sa : St × Bool) (a : Act) (h : WI sa) : WI (step2 sa a) := by
+  obtain ⟨s, armed⟩ := sa
+  unfold WI at *
+  simp only at h
+  cases a with
+  | submit m => simp only [step2, step, armedAfter]; split <;> exact h
+  | flush limit =>
+    simp only [step2, step, armedAfter]
+    intro hne
+    cases hb : (takeBatch limit 0 s.sendq).1 with
+    | nil =>
+      simp only [hb, flat, List.map_nil, List.flatten_nil, List.append_nil] at hne
+      have := h hne
+      simp [this]
+    | cons x xs => simp
+  | transfer =>
+    simp only [step2, step, armedAfter]
+    intro hne
+    apply h
+    rcases hne with hne | hne
+    · exact absurd rfl hne
+    · by_cases hp : s.pending = []
+      · right; intro hs; exact hne (by rw [hs, hp]; rfl)
+      · left; exact hp
+  | write n =>
+    simp only [step2, step, armedAfter]
+    intro hne
+    by_cases hd : s.sendbuf.drop n = []
+    · simp only [hd, List.isEmpty_nil, if_true]
+      rcases hne with hne | hne
+      · cases hp : s.pending with
+        | nil => exact absurd hp hne
+        | cons x xs => rfl
+      · exact absurd hd hne
+    · have : (s.sendbuf.drop n).isEmpty = false := by
+        cases hx : s.sendbuf.drop n with
+        | nil => exact absurd hx hd
+        | cons x xs => rfl
+      simp only [this]
+      apply h
+      right
+      intro hs
+      exact hd (by rw [hs]; simp)
+  | readEvent =>
+    simp only [step2, step, armedAfter]
+    intro hne
+    rcases hne with hne | hne
+    · cases hp : s.pending with
+      | nil => exact absurd hp hne
+      | cons x xs => simp
+    · cases hp : s.sendbuf with
+      | nil => exact absurd hp hne
+      | cons x xs => simp
+  | disconnect => simp only [step2, step, armedAfter]; exact h
+
+/-- for every sequence of submissions, flushes, write events (whole or partial) and read events, in any order: while bytes
+    wait in the transport the socket stays registered for write events, so the next select round writes them (no later
+    submission is needed to get them moving) -/
+theorem write_interest_kept (as : List Act) : WI (run2 as) := by
+  unfold run2
+  suffices ∀ sa, WI sa → WI (as.foldl step2 sa) from this _ (by intro h; rcases h with h | h <;> exact absurd rfl h)
+  induction as with
+  | nil => intro sa h; exact h
+  | cons a rest ih => intro sa h; exact ih _ (step2_wi sa a h)
+
+/-- the tracked pipeline is the pipeline -/
+theorem run2_fst (as : List Act) : (run2 as).1 = run as := by
+  unfold run2 run
+  suffices ∀ s b, (as.foldl step2 (s, b)).1 = as.foldl step s from this _ _
+  induction as with
+  | nil => intro s b; rfl
+  | cons a rest ih => intro s b; exact ih _ _
+
+/-- and a write event that takes everything empties the transport: with the interest kept, that event comes -/
+theorem write_event_drains (s : St) :
+    (step (step s .transfer) (.write (s.sendbuf.length + s.pending.length))).pending = [] ∧
+    (step (step s .transfer) (.write (s.sendbuf.length + s.pending.length))).sendbuf = [] := by
+  simp [step]
+
+-- non-vacuity: a partial write followed by a read event keeps the interest; the pinned shape of the defect drops it
+example : (run2 [.submit ⟨0, [1, 2, 3, 4]⟩, .flush 100, .transfer, .write 1, .readEvent]).2 = true ∧
+    (run2 [.submit ⟨0, [1, 2, 3, 4]⟩, .flush 100, .transfer, .write 1, .readEvent]).1.sendbuf = [2, 3, 4] := by decide
+
 end BV.C05
